@@ -214,6 +214,33 @@ def _controllers_everywhere():
                         pass
 
 
+def _surplus_and_missing_chunks():
+    """Files as other SunVox versions write them: more CVAL/CMID records than the type declares
+    controllers, fewer than it declares, unknown chunk ids, extra numbered CHNK entries."""
+    import struct
+
+    from rv.api import Project, Synth, m, read_sunvox_file
+    from vlib import chunktools
+
+    for cls in (m.Sampler, m.Amplifier, m.MetaModule, m.AnalogGenerator, m.Lfo):
+        chunks = chunktools.parse(Synth(cls()).read())
+        last_cval = max(i for i, (cid, _) in enumerate(chunks) if cid == b"CVAL")
+        extra = [(b"CVAL", struct.pack("<i", 7 + k)) for k in range(3)]
+        more = chunks[: last_cval + 1] + extra + chunks[last_cval + 1 :]
+        more = [(cid, pl + bytes(8 * 3) if cid == b"CMID" else pl) for cid, pl in more]
+        fewer = [c for i, c in enumerate(chunks) if not (c[0] == b"CVAL" and i >= last_cval - 1)]
+        unknown = chunks[:-1] + [(b"XTRA", b"\1\2\3\4"), (b"CHNM", struct.pack("<I", 77)), (b"CHDT", b"surplus"), chunks[-1]]
+        for variant in (more, fewer, unknown):
+            try:
+                mod = read_sunvox_file(BytesIO(chunktools.build(variant))).module
+                mod.clone()
+                p = Project()
+                p.attach_module(mod)
+                read_sunvox_file(BytesIO(p.read()))
+            except Exception:  # noqa: BLE001
+                pass
+
+
 OPS = [
     _legacy_version_load,
     _metamodule_mapped,
@@ -226,6 +253,7 @@ OPS = [
     _options_toggled,
     _controllers_everywhere,
     _fixtures,
+    _surplus_and_missing_chunks,
 ]
 
 _STATE = {"n": 0, "ran": 0}
